@@ -119,4 +119,41 @@ theorem pinv_mul_self (x : ℝ) (hx : x ≠ 0) : pinv x * x = 1 := by
   simp only [num_eqb, decide_eq_true_eq, hx, if_false]
   field_simp
 
+/-- the stored (column, value) pairs of row `i` of a CSR matrix, in storage order -/
+def csrEntries (m : Csr ℝ) (i : Nat) : List (Nat × ℝ) :=
+  (m.rowRange i).map fun p => (m.indices.getD p 0, m.data.getD p 0)
+
+theorem csrToMat_get (m : Csr ℝ) (i j : Nat) (hi : i < m.nRow) (hj : j < m.nCol) :
+    (csrToMat m).get i j = ((csrEntries m i).map fun e => if e.1 = j then e.2 else 0).sum := by
+  unfold csrToMat csrEntries
+  rw [get_mk'_of_lt _ hi hj, List.map_map]
+  congr 1
+  apply List.map_congr_left
+  intro p _
+  simp only [Function.comp, beq_iff_eq]
+
+/-- two CSR matrices whose rows hold the same (column, value) pairs in any order have the same denotation -/
+theorem csrToMat_perm (m m' : Csr ℝ) (hr : m.nRow = m'.nRow) (hc : m.nCol = m'.nCol)
+    (h : ∀ i, i < m.nRow → (csrEntries m i).Perm (csrEntries m' i)) :
+    SameEntries (csrToMat m) (csrToMat m') := by
+  refine ⟨hr, hc, ?_⟩
+  intro i j
+  by_cases hij : i < m.nRow ∧ j < m.nCol
+  · rw [csrToMat_get m i j hij.1 hij.2, csrToMat_get m' i j (hr ▸ hij.1) (hc ▸ hij.2)]
+    exact ((h i hij.1).map _).sum_eq
+  · have h1 : (csrToMat m).get i j = 0 := by
+      unfold csrToMat
+      rw [get_mk', if_neg hij]
+    have h2 : (csrToMat m').get i j = 0 := by
+      unfold csrToMat
+      rw [get_mk', if_neg (by rw [← hr, ← hc]; exact hij)]
+    rw [h1, h2]
+
+/-- splitting a stored value into two stored halves (un-summed duplicates) does not change the entry -/
+theorem duplicate_entries_sum (j c : Nat) (v : ℝ) (rest : List (Nat × ℝ)) :
+    (((c, v / 2) :: (c, v / 2) :: rest).map fun e => if e.1 = j then e.2 else 0).sum =
+      (((c, v) :: rest).map fun e => if e.1 = j then e.2 else 0).sum := by
+  simp only [List.map_cons, List.sum_cons]
+  split_ifs <;> ring
+
 end SkNet.Gnn
